@@ -48,7 +48,9 @@ Definition allowed_globals : list (string * string) :=
    ("mixer", "libxmp_verif_wraparound.ld");    (* verification hook H2 *)
    ("mixer", "libxmp_verif_mixer_iters");      (* verification hook H5 *)
    ("mixer", "libxmp_verif_wraplog");          (* verification hook H2 *)
-   ("scan", "libxmp_verif_scanlog")]%string.   (* verification hook H3 *)
+   ("scan", "libxmp_verif_scanlog");           (* verification hook H3 *)
+   ("scan", "libxmp_verif_seqlog");            (* verification hook H6 *)
+   ("player", "libxmp_verif_seqstep")]%string. (* verification hook H7 *)
 
 Definition pair_eqb (a b : string * string) : bool := String.eqb (fst a) (fst b) && String.eqb (snd a) (snd b).
 Definition subset_of (l m : list (string * string)) : bool := forallb (fun x => existsb (pair_eqb x) m) l.
